@@ -21,7 +21,11 @@ NewRun(e) == [id |-> e.id, phase |-> "new", cfg |-> e.cfg, tmax |-> e.tmax, lib 
               reg |-> <<>>, asm |-> FALSE]      \* reg: what the caller registered by writing or adding it; asm: the caller assembled chunks / added definitions
 
 (* a call is expected to succeed unless it is an attachment whose source misbehaves *)
-ExpectOK(e) == ~(e.op = "attachment" /\ e.src # "")
+Refused(e) == "refused" \in DOMAIN e /\ e.refused
+(* ... or a call the writer must refuse: a message on a channel it was never given, a channel whose schema it was never
+   given.  A refused call leaves no trace: ApplyCall ignores it, and the statistics, indexes and content of the file are
+   judged against the accepted calls only. *)
+ExpectOK(e) == ~(e.op = "attachment" /\ e.src # "") /\ ~Refused(e)
 
 DataItem(e) ==
   CASE e.op = "schema"  -> [k |-> "Schema", id |-> e.id, name |-> e.name, enc |-> e.enc, data |-> e.data]
@@ -159,7 +163,7 @@ JudgeRetain(s, e) ==
 JudgeCall(s, e) ==
   (IF e.ret = "panic" THEN {"C14/Panic"} ELSE {})
   \cup (IF ExpectOK(e) /\ e.ret = "err" THEN {"C01/CallRejected/" \o e.op} ELSE {})
-  \cup (IF ~ExpectOK(e) /\ e.ret = "ok" THEN {"C14/AttachmentSourceNotReported"} ELSE {})
+  \cup (IF ~ExpectOK(e) /\ ~Refused(e) /\ e.ret = "ok" THEN {"C14/AttachmentSourceNotReported"} ELSE {})
 
 (* C14: a destination fault is reported by the call it hits; nothing panics; what the
    destination accepted up to that return is a prefix of the fault-free output *)
